@@ -149,13 +149,14 @@ def extract_default(
                 "str": str,
             }[typ](lit)
         )
-    elif default.isdecimal():
-        default = int(default)
     elif default in frozenset(("True", "False")):
         default = literal_eval(default)
     else:
         with suppress(ValueError):
-            default = float(default)
+            try:
+                default = int(default)  # signed integers too: `"-5".isdecimal()` is False
+            except ValueError:
+                default = float(default)
 
     if emit_default_doc:
         return line, default
